@@ -1253,7 +1253,7 @@ class Interp:
                         fr.bb = target
                         return None
                     st.status = 'loopback'
-                    st.tags['loopback_target'] = target
+                    st.tags['loopback_target'] = (fr.fn['path'], target)
                     return 'stop'
                 fr.entered_loops.add(target)
                 if self.loop_hook is None and self.short_concrete_loop(st, fr, cfg, target):
